@@ -98,6 +98,28 @@ func c01Bodies(r *rand.Rand) []packet.Packet {
 			copy(p[i:], []byte{0x47, 0x40, 0x00, 0x10})
 		}
 	})
+	// adaptation fields whose optional fields end exactly on the last byte of the packet, one short of it and one past it
+	// (length 183 / 182 / 184 / 255; private data or extension whose own length byte makes the sum): validation looks at
+	// the header alone
+	for _, al := range []int{183, 182, 184, 255, 0, 1} {
+		for _, fl := range []byte{0x02, 0x01, 0x12, 0x0a, 0x1a, 0x00} {
+			for _, d := range []int{-1, 0, 1} {
+				add(func(p *packet.Packet) {
+					p[4], p[5] = byte(al), fl
+					off := 6
+					if fl&0x10 != 0 {
+						off += 6
+					}
+					if fl&0x08 != 0 {
+						off += 6
+					}
+					if v := 188 - (off + 1) + d; v >= 0 && v < 256 {
+						p[off] = byte(v) // the length byte of the first variable-length field
+					}
+				})
+			}
+		}
+	}
 	return out
 }
 
